@@ -50,6 +50,7 @@ type conn struct {
 	client net.Conn
 	done   chan struct{} // handler returned / collector closed the connection
 	ended  bool
+	closed bool // real connections: the client closed it itself (its own read returns at once, the collector may still be delivering)
 }
 
 type kept struct {
@@ -114,10 +115,23 @@ func (s *sys) pump(stop <-chan error, idle time.Duration) {
 	}
 	for {
 		// End events of any connection
+		open := 0
+		for _, c := range s.conns {
+			select {
+			case <-c.done:
+			default:
+				open++
+			}
+		}
 		for _, c := range s.conns {
 			select {
 			case <-c.done:
 				if !c.ended {
+					if s.real && c.closed && int(s.cp.GetNumConnToCollector()) > open {
+						// the client closed this connection itself: its End is the moment the collector's handler
+						// is through with it (everything delivered), i.e. when only the still-open connections are registered
+						continue
+					}
 					c.ended = true
 					s.w.Emit(vt.Ev{"e": "End", "c": c.id})
 				}
@@ -149,6 +163,7 @@ func (s *sys) write(c *conn, chunk []byte) {
 
 func (s *sys) closeClient(c *conn) {
 	s.w.Emit(vt.Ev{"e": "ClientClose", "c": c.id})
+	c.closed = true
 	c.client.Close()
 }
 
@@ -218,6 +233,9 @@ func newRealSys(w *vt.Writer, tag string, n int) *sys {
 			cli.Read(buf)
 			close(c.done)
 		}()
+	}
+	for k := 0; int(cp.GetNumConnToCollector()) < n && k < 5000; k++ { // every handler registered before anything is judged by the count
+		time.Sleep(time.Millisecond)
 	}
 	return s
 }
